@@ -119,6 +119,21 @@ PROPS['C06'] = dict(
     assumptions=[], not_decided=['text shapes outside the templates', 'whole-file "as if the line were absent" (needs the driver; the per-line frame contract is the contract-level argument)'],
 )
 
+PROPS['C07'] = dict(
+    category='proof',
+    technique='Kani loop-free wiring contracts: each delegating parse_* function is verified against a recording stand-in for its callee (callers are checked against callee interfaces, not bodies); state->value conversions verified field by field over all scalar values',
+    level_text='proved (Kani, loop-free): all 13 delegation steps Beatmap -> HitObjects -> TimingPoints -> General (and -> Editor/Metadata/Colors/Difficulty/Events) call exactly the right inner parser once on exactly the right sub-state with the same line and return its Ok/Err; ignored sections return Ok(()); State->value conversions copy the format version and every scalar field bit-exactly',
+    level_note='agreement of the nine decoders on every input follows because DecodeBeatmap::decode is one shared default method (no impl overrides decode or should_skip_line: scanned on every run); moved collections (strings, vectors) are checked only for the empty case; the line is an arbitrary fixed text since the wiring does not inspect it',
+    verus=[], kani=['c07.kc', 'c07_tp.kc'],
+    kani_functions=['src/beatmap.rs :: impl DecodeBeatmap for Beatmap :: fn parse_* (11)', 'src/section/hit_objects/decode.rs :: impl DecodeBeatmap for HitObjects :: fn parse_* (11)',
+                    'src/section/timing_points/decode.rs :: impl DecodeBeatmap for TimingPoints :: fn parse_* (11)', 'src/beatmap.rs :: impl From<BeatmapState> for Beatmap',
+                    'src/section/hit_objects/decode.rs :: impl From<HitObjectsState> for HitObjects (scalar fields)', 'src/section/timing_points/decode.rs :: impl From<TimingPointsState> for TimingPoints', 'src/section/timing_points/decode.rs :: impl From<TimingPoints> for Beatmap'],
+    explanation='see level_text; per-obligation statements in coverage.samples[].states',
+    trusted_base=COMMON_TRUST, assumptions=['no impl in the crate overrides DecodeBeatmap::decode / should_skip_line (checked syntactically by scan)'],
+    not_decided=['string / vector fields of the conversions for non-empty contents', 'Metadata does not strip comments while the other sections do (C11)'],
+    scan_no_override=True,
+)
+
 NOT_APPLICABLE = {
     'C02': 'whole-text round trip through core::fmt float printing and dec2flt: no contract on one function links encode output to decode input, and neither verifier executes fmt/parse on symbolic values; the expressible codec-pair lemmas are decided under C11/C13/C14/C04',
     'C03': 'same as C02 (edited values travel through write! and str::parse); the first-colon rule it singles out is a contract on KeyValue::parse decided under C11',
